@@ -90,7 +90,7 @@ def spans_for(tset):
     return spans
 
 
-def write_case(root, tset, async_flag):
+def write_case(root, tset, async_flag, seqopts=False):
     import yaml
     os.makedirs(os.path.join(root, "in"))
     with open(os.path.join(root, "in", "data.json"), "w") as f:
@@ -108,6 +108,13 @@ def write_case(root, tset, async_flag):
                                            filepath=None, json_per_line=False,
                                            field_mapping=fm)),
                sequencer=dict(async_flag=async_flag))
+    if seqopts:
+        # per-workflow sequencer options for the first workflow only
+        cfg["sequencer"]["async_event_groups"] = {
+            WF[0]: {"r": {"a": "g1", "b": "g1"}}}
+        cfg["sequencer"]["event_name_map_information"] = {
+            WF[0]: {"r": {"mapped_event_type": "R",
+                          "child_event_types": ["a"]}}}
     with open(os.path.join(root, "cfg.yaml"), "w") as f:
         yaml.safe_dump(cfg, f)
     with open(os.path.join(root, "map.yaml"), "w") as f:
@@ -134,7 +141,7 @@ def canon_event(e):
             e["timestamp"], e["applicationName"], tuple(sorted(prev)))
 
 
-def run_case(tset, custom, async_flag, ug=False):
+def run_case(tset, custom, async_flag, ug=False, seqopts=False):
     from tel2puml.otel_to_pv.otel_to_pv import otel_to_pv
     from tel2puml.otel_to_pv.config import IngestDataConfig
     import tel2puml.events  # noqa: F401
@@ -142,7 +149,7 @@ def run_case(tset, custom, async_flag, ug=False):
     problems = []
     info = {"identical_text": 0, "workflows": 0}
     try:
-        cfg = write_case(root, tset, async_flag)
+        cfg = write_case(root, tset, async_flag, seqopts)
         o1, o2, o3 = (os.path.join(root, d) for d in ("o1", "o2", "o3"))
         cfgp = os.path.join(root, "cfg.yaml")
         mapp = os.path.join(root, "map.yaml") if custom else None
@@ -243,6 +250,16 @@ def handle(task):
                 for p in problems:
                     out.append({"tset": tset, "custom": custom, "async": af,
                                 "problem": p})
+        if len(tset) >= 2:
+            # sequencer options configured for the first workflow only
+            for af in (False, True):
+                n += 1
+                problems, info = run_case(tset, False, af, seqopts=True)
+                for k in ("identical_text", "workflows"):
+                    agg[k] += info[k]
+                for p in problems:
+                    out.append({"tset": tset, "custom": False, "async": af,
+                                "seqopts": True, "problem": p})
         if sum(len(v) for v in tset.values()) >= 2:
             # both routes with --unique-graphs
             n += 1
@@ -278,11 +295,13 @@ def collect(tier, tasks, results, ctx):
         for b in r["bad"]:
             viol.append({
                 "key": input_key(["C14", b["tset"], b["custom"], b["async"],
-                                  b["problem"][0], bool(b.get("ug"))]),
+                                  b["problem"][0], bool(b.get("ug")),
+                                  bool(b.get("seqopts"))]),
                 "what": f"traces={b['tset']} custom_mapping={b['custom']} "
                         f"async={b['async']}: {str(b['problem'])[:300]}",
                 "input": {"tset": b["tset"], "custom": b["custom"],
-                          "async": b["async"], "ug": bool(b.get("ug"))},
+                          "async": b["async"], "ug": bool(b.get("ug")),
+                          "seqopts": bool(b.get("seqopts"))},
                 "observed": b["problem"]})
     he = None
     if not agg.get("workflows"):
@@ -315,5 +334,6 @@ def collect(tier, tasks, results, ctx):
 def replay(rec, ctx):
     i = rec["input"]
     problems, _ = run_case(i["tset"], i["custom"], i["async"],
-                           ug=i.get("ug", False))
+                           ug=i.get("ug", False),
+                           seqopts=i.get("seqopts", False))
     return bool(problems), repr([p[:2] for p in problems])[:300]
